@@ -45,7 +45,7 @@ MUST_HIT = ["prefix:empty", "prefix:equal", "prefix:nested", "cc:16hl", "cc:16lh
             "shared-must", "raise-ok", "via-request:ok", "groups:ok", "cc:midbyte", "attributed:midbyte", "attributed:nrc0",
             "pos:implicit", "val:crossing", "crossing:cut-inside", "crossing:cut-inside-other-attributed",
             "nrc:subbyte", "nrc:subbyte-then-implicit", "odxenc:same:request", "odxenc:same:pos",
-            "odxenc:same:neg", "odxenc:same:gnr"]
+            "odxenc:same:neg", "odxenc:same:gnr", "response:empty-prefix:decode_response"]
 
 ALPHA = [0x10, 0x11, 0x22]
 POOL = [0x50, 0x51, 0x62, 0x7F, 0x10, 0x11, 0x22]
@@ -158,6 +158,18 @@ def layers_strategy():
         ps = [_cc("sid", 0, first, 8, 0, True)]
         pos = 1
         shape = draw(st.integers(0, 11))
+        if npre is not None and npre >= 1 and draw(st.integers(0, 7)) == 0:
+            # a response without any leading constant (empty constant prefix) of a service whose
+            # request has one: it starts with raw data or with the echo of a non-constant request
+            # byte and can only be found through its request (decode_response)
+            shape = 99
+            if rqlen > npre and draw(st.booleans()):
+                a = draw(st.integers(npre, min(rqlen - 1, npre + 1)))
+                ps = [{"k": "mrp", "name": "echo0", "pos": 0, "rqpos": a,
+                       "n": draw(st.integers(1, min(2, rqlen - a)))}]
+                pos = ps[0]["n"]
+            else:
+                ps = [_val("vraw", 0, 8, True)]
         if shape in (0, 1):
             ps += draw(split_byte(pos))
             pos += 1
@@ -521,7 +533,11 @@ def eval_response(layer, dl, service, resp_obj, req: bytes, resp: bytes):
         return [mk("response-via-request", f"returned {got} without the owner {name}", f"missing:{cause}",
                    cause=cause)], set()
     fails, _ = _check_messages(layer, res, name, v, mk)
-    return fails, {"via-request:ok"}
+    classes = {"via-request:ok"}
+    rp = D.request_prefix(service)
+    if not fails and rp and resp_obj in service["pos"] + service["neg"] and not D.const_prefix(resp_obj, rp):
+        classes.add("response:empty-prefix:decode_response")
+    return fails, classes
 
 
 def eval_own_encoding(layer, dl, kind, service, obj, req: bytes, ref_msg: bytes, vals: dict):
@@ -699,11 +715,11 @@ def own_messages(layer, values):
 
 def message_alphabet(layer) -> list:
     extra = []
-    for s in layer["services"]:
-        for o in s["pos"] + s["neg"]:
-            extra.append(o["params"][0]["val"])
-    for g in layer["gnrs"]:
-        extra.append(g["params"][0]["val"])
+    objs = [o for s in layer["services"] for o in s["pos"] + s["neg"]] + list(layer["gnrs"])
+    for o in objs:
+        p = o["params"][0] if o["params"] else None
+        if p and p["k"] == "cc" and p["len"] == 8 and p["pos"] == 0:
+            extra.append(p["val"])
     extra += [0x50, 0x7F]
     alpha = list(ALPHA)
     for b in extra:
